@@ -389,26 +389,38 @@ Definition purge_staged (c : cfg) : M unit :=
   if exists_at t2 (parent (c_so c)) then attempt (clean_dirs_up (parent (c_so c))) ;; ret tt
   else ret tt.
 
-(** repo.rs:1033-1084 commit_inner *)
-Definition commit_inner (c : cfg) : M unit :=
+(** repo.rs:1033-1084 commit_inner, in three named parts: the preparation inside the staged object,
+    the installation into the main repository, the removal of the staged object *)
+Definition prep (c : cfg) : M invr :=
   do i0 <- catch (get_inventory c (c_so c))                                 (* repo.rs:1041-1050 *)
                  (fun e => match e with ENotFound => throw ENoStaged | _ => throw e end) ;;
   let i := committed_inv c i0 in                                            (* repo.rs:1052-1056 *)
   stage_inventory c i true ;;                                               (* repo.rs:1058 *)
   rm_staged_files c (i_dups i0) ;;                                          (* repo.rs:1059-1065 *)
   rm_orphaned_files c i ;;                                                  (* repo.rs:1066 *)
+  ret i.
+
+Definition install (c : cfg) (i : invr) : M unit :=                         (* repo.rs:1070-1078 *)
+  if inv_is_new i then write_new_object c else write_new_version c i.
+
+Definition mid (c : cfg) (i : invr) : M unit :=
   do cl <- get_closed ;;                                                    (* repo.rs:1069 "last chance" *)
   if cl then ret tt
-  else
-    (if inv_is_new i then write_new_object c else write_new_version c i) ;; (* repo.rs:1070-1078 *)
-    purge_staged c.                                                         (* repo.rs:1080 *)
+  else install c i ;; purge_staged c.                                       (* repo.rs:1080 *)
+
+Definition commit_inner (c : cfg) : M unit :=
+  do i <- prep c ;; mid c i.
 
 (** repo.rs:1426-1436 get_lock_manager (create_dir_all of the locks directory), lock.rs:32-47 acquire,
     lock.rs:50-59 Drop *)
-Definition with_lock (c : cfg) (body : M unit) : M unit :=
+Definition acquire (c : cfg) : M unit :=
   create_dir_all (c_locks c) ;;
-  catch (step (SCreateNew (c_locks c ++ [c_lock c]) (CBlob 0))) (fun _ => throw ELock) ;;
-  finally body (remove_file_inf (c_locks c ++ [c_lock c])).
+  catch (step (SCreateNew (c_locks c ++ [c_lock c]) (CBlob 0))) (fun _ => throw ELock).
+
+Definition unlock (c : cfg) : M unit := remove_file_inf (c_locks c ++ [c_lock c]).
+
+Definition with_lock (c : cfg) (body : M unit) : M unit :=
+  acquire c ;; finally body (unlock c).
 
 (** repo.rs:934-947 commit *)
 Definition commit (c : cfg) : M unit :=
@@ -490,3 +502,92 @@ Definition obj_validb (c : cfg) (t : tree) (root : fpath) : bool :=
 (** E024: no empty directory below the object root *)
 Definition no_empty_dirb (t : tree) (root : fpath) : bool :=
   forallb (fun e => negb (under root (fst e)) || match snd e with Dir => has_children t (fst e) | File _ => true end) t.
+
+(** * vocabulary of the property statements (Props/C04.v, Props/C05.v) *)
+
+(** the object (or anything else) rooted at q is the same in t1 and t2: every path at or below q
+    resolves to the same node - "byte-for-byte what it was" *)
+Definition same_at (q : fpath) (t1 t2 : tree) : Prop :=
+  forall p, under q p = true -> lookup t1 p = lookup t2 p.
+
+Definition lockp (c : cfg) : fpath := c_locks c ++ [c_lock c].
+
+(** the run installed something in the main repository: a rename whose destination lies in the object root *)
+Definition installs (c : cfg) (o : fsop) : bool :=
+  match o with Rename _ d => under (c_mo c) d | _ => false end.
+Definition installed (c : cfg) (w : world) : bool := existsb (installs c) (w_trace w).
+
+(** the configuration is sane: the staged object, the main object and the lock file do not overlap,
+    and the reserved file names are distinct *)
+Record cfg_ok (c : cfg) : Prop := mkCfgOk {
+  ok_so_ne : c_so c <> [];
+  ok_mo_ne : c_mo c <> [];
+  ok_so_mo : under (c_so c) (c_mo c) = false;
+  ok_mo_so : under (c_mo c) (c_so c) = false;
+  ok_so_locks : under (c_so c) (c_locks c) = false;
+  ok_mo_locks : under (c_mo c) (c_locks c) = false;
+  ok_lock_so : under (lockp c) (c_so c) = false;
+  ok_lock_mo : under (lockp c) (c_mo c) = false;
+  ok_so_lock : under (c_so c) (lockp c) = false;
+  ok_mo_lock : under (c_mo c) (lockp c) = false;
+  ok_inv_side : c_inv c <> c_side c;
+  ok_cdir_inv : c_cdir c <> c_inv c;
+  ok_cdir_side : c_cdir c <> c_side c
+}.
+
+(** content path of the head version: <head>/<content dir>/<at least one more segment> *)
+Definition content_path (c : cfg) (h : fseg) (d : fpath) : Prop :=
+  exists rest, rest <> [] /\ d = h :: c_cdir c :: rest.
+
+(** the staged object S_o is complete (Appendix D, StagedWF at the tree level): it holds a parseable
+    inventory whose head content files are all there; the version directory (if it exists yet)
+    is a directory *)
+Record staged_ok (c : cfg) (t : tree) (i : invr) : Prop := mkStagedOk {
+  st_anc : forall q, q <> [] -> under q (c_so c) = true -> lookup t q = Some Dir;   (* S_o and its ancestors are directories *)
+  st_inv : read_file t (c_so c ++ [c_inv c]) = Some (tok_of i);
+  st_vs : i_vs i <> [];
+  st_head_inv : head_of i <> c_inv c;
+  st_head_side : head_of i <> c_side c;
+  st_man : forall d, In d (i_man i) -> content_path c (head_of i) d /\ exists n, lookup t (c_so c ++ d) = Some (File (CBlob n));
+  st_dups : forall d, In d (i_dups i) -> In d (i_man i)
+}.
+
+(** the object M_o in the main repository before the commit: absent (first version), or a valid object
+    whose versions are exactly the earlier versions of the staged inventory *)
+Inductive main_ok (c : cfg) (t : tree) (i : invr) : Prop :=
+| MainAbsent :
+    i_vs i = [head_of i] ->
+    (forall x, under (c_mo c) x = true -> lookup t x = None) ->
+    main_ok c t i
+| MainPresent (k0 : N) (vs0 : list fseg) (spec0 : fseg) (man0 dups0 : list fpath) :
+    vs0 <> [] ->
+    i_vs i = vs0 ++ [head_of i] ->
+    ~ In (head_of i) vs0 ->
+    lookup t (c_mo c) = Some Dir ->
+    read_file t (c_mo c ++ [c_inv c]) = Some (CInv k0 vs0 spec0 man0 dups0) ->
+    obj_validb c t (c_mo c) = true ->
+    k0 <> c_newk c ->
+    (forall x, under (c_mo c ++ [head_of i]) x = true -> lookup t x = None) ->
+    (* declaration files: the old one is there (validity); the one a changed type requires is not, and is
+       neither a reserved name nor a version *)
+    (i_spec i <> spec0 -> lookup t (c_mo c ++ [i_spec i]) = None /\ i_spec i <> c_inv c /\ i_spec i <> c_side c
+                          /\ is_decl_name spec0 = true /\ is_decl_name (i_spec i) = true) ->
+    main_ok c t i.
+
+(** precondition of commit: sane configuration, lock free, staged object complete, main object as above *)
+Record commit_pre (c : cfg) (t : tree) (i : invr) : Prop := mkCommitPre {
+  pre_cfg : cfg_ok c;
+  pre_locks : is_dir t (c_locks c) = true;
+  pre_lock_free : lookup t (lockp c) = None;
+  pre_staged : staged_ok c t i;
+  pre_main : main_ok c t i
+}.
+
+(** the versions committed before ([vs0]) are untouched *)
+Definition versions_intact (c : cfg) (vs0 : list fseg) (t t' : tree) : Prop :=
+  forall v, In v vs0 -> same_at (c_mo c ++ [v]) t' t.
+
+(** every content file of the version being committed is, complete, in the staged object or in the object *)
+Definition content_somewhere (c : cfg) (i : invr) (t t' : tree) : Prop :=
+  forall d, In d (i_man (committed_inv c i)) ->
+    lookup t' (c_so c ++ d) = lookup t (c_so c ++ d) \/ lookup t' (c_mo c ++ d) = lookup t (c_so c ++ d).
